@@ -36,6 +36,7 @@ impl<T: Actor> VxDrop for ActorRef<T> {
         &&& w1.id_floor() == w0.id_floor()
         &&& w1.chan_floor() == w0.chan_floor()
         &&& w1.dl_count() == w0.dl_count()
+        &&& w1.cells() == w0.cells()
     }
 }
 
@@ -291,6 +292,7 @@ pub open spec fn same_ambient_but_dl(w0: World, w1: World) -> bool {
     &&& w1.id_floor() == w0.id_floor()
     &&& w1.chan_floor() == w0.chan_floor()
     &&& w1.own_strong() == w0.own_strong()
+    &&& w1.cells() == w0.cells()
 }
 
 #[cfg(not(feature = "deadlock-detection"))]
@@ -352,7 +354,6 @@ pub open spec fn default_capacity(w: World) -> usize {
 }
 /// exactly: one id allocation, a mailbox of exactly `cap`, a control channel of exactly 1, one lifecycle task on those
 /// receivers with the caller's args
-#[cfg(not(feature = "metrics"))]
 pub open spec fn spawn_tail(base: Seq<Eff>, r: HandleView, cap: usize, args_id: int) -> Seq<Eff> {
     base.push(Eff::FetchAdd(cell_ACTOR_IDS(), 1))
         .push(Eff::NewChan(r.mbx, cap as nat))
@@ -520,7 +521,7 @@ pub open spec fn guard_dropped(g: Option<WaitForGuard>, w0: World, w1: World) ->
     &&& (match g { Some(x) => guard_removed(x.0, w0, w1), None => w1.log() =~= w0.log() && w1.graph() == w0.graph() && !w1.lock_held() })
     &&& w1.current_actor() == w0.current_actor() && w1.poisoned() == w0.poisoned() && w1.mmon() == w0.mmon()
     &&& w1.cap_cell() == w0.cap_cell() && w1.id_floor() == w0.id_floor() && w1.chan_floor() == w0.chan_floor()
-    &&& w1.dl_count() == w0.dl_count() && w1.own_strong() == w0.own_strong()
+    &&& w1.dl_count() == w0.dl_count() && w1.own_strong() == w0.own_strong() && w1.cells() == w0.cells()
 }
 
 /// R_ask with deadlock detection.  Untracked caller (no task-local identity): exactly the core relation, the graph and its
@@ -595,4 +596,49 @@ pub open spec fn same_ambient_but_dl_graph(w0: World, w1: World) -> bool {
     &&& w1.id_floor() == w0.id_floor()
     &&& w1.chan_floor() == w0.chan_floor()
     &&& w1.own_strong() == w0.own_strong()
+    &&& w1.cells() == w0.cells()
+}
+
+// ---------------------------------------------------------------- metrics collector (C20)
+#[cfg(feature = "metrics")]
+impl MetricsCollector {
+    /// a collector is identified by its message-count cell
+    pub open spec fn cid(&self) -> int { self.message_count.cell() }
+    pub open spec fn cells_known(&self, w: World) -> bool {
+        let a = self.message_count.cell(); let b = self.total_processing_nanos.cell(); let c = self.max_processing_nanos.cell();
+        let d = self.last_activity_millis.cell(); let e = self.error_count.cell();
+        &&& w.cells().contains_key(a) && w.cells().contains_key(b) && w.cells().contains_key(c) && w.cells().contains_key(d) && w.cells().contains_key(e)
+        &&& a != b && a != c && a != d && a != e && b != c && b != d && b != e && c != d && c != e && d != e
+        &&& a != cell_ACTOR_IDS() && a != cell_DEAD_LETTER_COUNT() && b != cell_ACTOR_IDS() && b != cell_DEAD_LETTER_COUNT()
+        &&& c != cell_ACTOR_IDS() && c != cell_DEAD_LETTER_COUNT()
+    }
+    /// the arithmetic invariant (mathematical integers): total <= count * max
+    pub open spec fn coll_inv(&self, w: World) -> bool {
+        w.cells()[self.total_processing_nanos.cell()] as int
+            <= (w.cells()[self.message_count.cell()] as int) * (w.cells()[self.max_processing_nanos.cell()] as int)
+    }
+}
+#[cfg(feature = "metrics")]
+pub open spec fn sat_nanos(d: Duration) -> nat { if dur_nanos(d) <= u64::MAX as nat { dur_nanos(d) } else { u64::MAX as nat } }
+#[cfg(feature = "metrics")]
+pub open spec fn sat_add_spec(a: nat, b: nat) -> nat { if a + b <= u64::MAX as nat { a + b } else { u64::MAX as nat } }
+#[cfg(feature = "metrics")]
+pub open spec fn avg_spec(total: nat, count: nat) -> nat { if count > 0 { total / count } else { 0 } }
+#[cfg(feature = "metrics")]
+pub proof fn lemma_coll_inv_step(count: int, total: int, max: int, n: int)
+    requires 0 <= count, 0 <= total, 0 <= max, 0 <= n, total <= count * max
+    ensures
+        total + n <= (count + 1) * (if max >= n { max } else { n }),
+        count * max <= (count + 1) * (if max >= n { max } else { n }),
+{
+    let m2 = if max >= n { max } else { n };
+    assert(count * max <= count * m2) by(nonlinear_arith) requires 0 <= count, max <= m2;
+    assert((count + 1) * m2 == count * m2 + m2) by(nonlinear_arith);
+}
+#[cfg(feature = "metrics")]
+pub proof fn lemma_avg_le_max(total: int, count: int, max: int)
+    requires 0 <= total, 0 < count, 0 <= max, total <= count * max
+    ensures total / count <= max
+{
+    assert(total / count <= max) by(nonlinear_arith) requires 0 <= total, 0 < count, 0 <= max, total <= count * max;
 }
